@@ -160,6 +160,17 @@ let () =
             hex_of_bytes nm ^ ":" ^ (match c.cd_info with None -> "-" | Some x -> hex_of_bytes x) ^ ":" ^ fl) bd' in
           "reused=" ^ (match ru with None -> "-" | Some x -> hex_of_bytes x) ^ " " ^ (if dirs = [] then "-" else String.concat "," dirs)) in
       Printf.printf "%s\t%s\n" id out
+    | id :: "HR" :: _eng :: rounds :: _ ->
+      (* per round: writes and cached PFADDs, Backup (flush, then capture), further writes and cached PFADDs,
+         Restore (engine closed = cache flushed, THEN the directory is listed): the content of the backup instant *)
+      let n = int_of_string rounds in
+      let bad = ref 0 in
+      for t = 1 to n do
+        let h = { h_engine = [n_of_int t]; h_cache = [n_of_int (t + 1000)] } in
+        let ck = backup_flush_then_capture h in
+        if List.map int_of_n ck <> List.map int_of_n (h_logical h) then incr bad
+      done;
+      Printf.printf "%s\trounds=%d restore_differs=%d\n" id n !bad
     | id :: "RS" :: _ ->
       (* two sources A (id 1) and B (id 2) hold a checkpoint of the same (term,index) with different content;
          store C transfers + applies from A, repeats the request, then transfers + applies from B *)
